@@ -441,7 +441,7 @@ char *sasl_scram(xmpp_ctx_t *ctx,
         goto out_sval;
     }
     ival = strtol(i, &saveptr, 10);
-    if (ival <= 0) {
+    if (ival <= 0 || ival > UINT32_MAX) {
         goto out_sval;
     }
 
